@@ -71,6 +71,9 @@ def mk_problem(dt):
 
 def run(chk):
     chk.level = "proof"
+    from props import alg_forwarding
+    from cola.linalg.inverse.cg import CG as _CG
+    alg_forwarding.forwarding(chk, "C12", _CG)
     chk.assume("Hestenes-Stiefel: iterates that follow the PCG recurrences with exact arithmetic minimise the A-norm of the error over "
                "x0 + K_k(PA, P r0) (ASSUMED; not in Mathlib) - the check proves the recurrences, the guards and the stopping contract")
     chk.assume("floating-point loss of conjugacy and the convergence rate are out of reach (exact arithmetic, safety only)")
